@@ -364,10 +364,10 @@ def main(argv=None):
     seen_sig = set()
     for v in violations:
         sig = json.dumps([(f["subcheck"], f["features"]) for f in v["fails"]], sort_keys=True)
-        rel = write_replay(args.prop, v)
         if sig in seen_sig:
             continue
         seen_sig.add(sig)
+        rel = write_replay(args.prop, v)
         for f in v["fails"][:4]:
             print("  failed sub-check %s %s %s" % (f["subcheck"], json.dumps(f["features"]), json.dumps(f["detail"])[:400]))
         print("VIOLATION property=%s replay=%s" % (args.prop, rel))
